@@ -107,7 +107,17 @@ def inject(rng, sid):
     s.add("MARK")
     for c in pre:
         s.add(*c)
+    twice = entry is None and p["call"][0] == "RC" and rng.random() < 0.25
+    if twice:
+        # the read is made twice through one handle of the caller's (whatever the first one did - succeed, or fail in any of the
+        # injected ways - nothing may remain after the handle is released)
+        if p["slot_pre"] is None:
+            p["slot_pre"] = b""
+        s.meta["twice"] = True
+        s.meta["impl_only"] = True
     gen_tree.emit_read(s, p, 0, cb=cb, entry=entry)
+    if twice:
+        s.lines.append(s.lines[-1])
     if entry == "RH":
         for i in range(0, len(files) + 1):
             s.add("RAW", i)
